@@ -1,4 +1,5 @@
 import Iauthd.Module.Proofs
+import Iauthd.Module.ProofsHook
 /-
   C20 — module load and unload respect declared dependencies.
 
@@ -133,6 +134,16 @@ theorem C20_judge (hcl : Closed G U L) (hfuel : U.length < fuel) :
     judge G ok U L (run lt G ok fuel L).status (run lt G ok fuel L).events = true :=
   run_judge lt hcl hfuel
 
+/-- The post-init hook is optional (README).  A run in which only the modules with `hk m` have
+    one writes the same log minus the post-init events of the others (`module_dfs` walks them
+    like any module and skips the call).  On every graph and for every choice of hook-less
+    modules that log passes the hook-aware judge: each hooked module is post-initialised exactly
+    once, after every hooked module it depends on *transitively* — also through hook-less ones —
+    and cycles / unloadable modules abort exactly as before. -/
+theorem C20_judge_hookless (hk : α → Bool) (hcl : Closed G U L) (hfuel : U.length < fuel) :
+    judgeH G ok hk U L (run lt G ok fuel L).status (hideHookless hk (run lt G ok fuel L).events) = true :=
+  judgeH_of_judge G ok hk U L _ _ (run_judge lt hcl hfuel)
+
 /-- The judge's executable reading of "must abort" is the mathematical one. -/
 theorem judge_demand_exact (hcl : Closed G U L) :
     mustAbort G ok U L = true ↔ ∃ m, Loaded G L m ∧ (ok m = false ∨ Reach1 G m m) :=
@@ -221,5 +232,26 @@ theorem pinned_fails_judge :
       (runPinned natLt diamond allOk 5 [0]).events = false ∧
     judge triangle allOk [0, 1, 2] [0] (runPinned natLt triangle allOk 4 [0]).status
       (runPinned natLt triangle allOk 4 [0]).events = false := by decide
+
+/-- `a→b; b→c`, `b` without a post-init hook -/
+def chain3 : Nat → List Nat
+  | 0 => [1]
+  | 1 => [2]
+  | _ => []
+
+def hookless1 : Nat → Bool := fun n => decide (n ≠ 1)
+
+/-- non-vacuity of `C20_judge_hookless`: the repaired model on the chain, `b` hook-less … -/
+example : hideHookless hookless1 (run natLt chain3 allOk 4 [0]).events =
+    [.ctorBegin 0, .ctorBegin 1, .ctorBegin 2, .ctorEnd 2, .ctorEnd 1, .ctorEnd 0,
+     .postInit 2, .postInit 0, .dtor 0, .dtor 1, .dtor 2] := by decide
+
+/-- … and the hook-aware judge rejects a walk that is pruned at the hook-less module (post-init
+    of `a` before that of `c`, on which it depends through `b`), which the direct-dependency
+    reading would not notice. -/
+theorem hookless_pruned_walk_fails_judge :
+    judgeH chain3 allOk hookless1 [0, 1, 2] [0] 0
+      [.ctorBegin 0, .ctorBegin 1, .ctorBegin 2, .ctorEnd 2, .ctorEnd 1, .ctorEnd 0,
+       .postInit 0, .postInit 2, .dtor 0, .dtor 1, .dtor 2] = false := by decide
 
 end Iauthd.Properties.C20
